@@ -17,9 +17,11 @@ Status on the pinned tree:
   `<path>=` (model only: not provoked on the real code);
 * `C14_witness_below_high`: read literally, "below the low-water mark or everything removed" also fails whenever
   low ≤ total < high: the cleaner does not start below the high-water mark (hysteresis, by design);
-* `C14_compressed_tmp_unprotected` + `C14_witness_inflight_compressed`: in a compressed cache the temporary of a
-  store in flight, `<key>=.tar.gz`, is recognised as an entry but is not one of the two names markDir protects
-  (`<key>.tar.gz`, `<key>.tar.gz=`), so the cleaner of the same process evicts it; plain caches are fine.
+* FIXED (`fix:` commit in /repo): in a compressed cache the temporary of a store in flight, `<key>=.tar.gz`, is
+  recognised as an entry but is not one of the two names `markDir(entry)` protects (`<key>.tar.gz`, `<key>.tar.gz=`:
+  `C14_compressed_tmp_unprotected`), so the cleaner of the same process evicted it
+  (`C14_witness_inflight_compressed`, now conditional on the old fact value).  `Store` now marks the temporary too:
+  `C14_store_tmp_protected` and `C14_inflight_tmp_never_evicted` hold for both modes.
 -/
 namespace PlzVerif.Props.C14
 open PlzVerif.Clean PlzVerif.Generated
@@ -30,9 +32,10 @@ def FactsOK : Bool :=
   C14.compressedSuffixBytes == [46, 116, 97, 114, 46, 103, 122] &&
   C14.markKeys == ["path", "path+="] &&
   C14.pathParts == ["join-b64key", "param2", "param3", "field-Suffix"] &&
-  C14.tmpSuffixBytes == [61] && C14.storeMarks == ["final"] &&
-  -- Store marks the entry before it removes or writes anything; retrieveFiles marks it before it restores
-  C14.storeCalls == ["mark-final", "remove-final", "store", "rename-tmp-final"] &&
+  -- since the fix of `compressed-temp-unprotected-during-store`: Store marks the entry AND its temporary
+  C14.tmpSuffixBytes == [61] && C14.storeMarks == ["final", "tmp"] &&
+  -- Store marks both before it removes or writes anything; retrieveFiles marks the entry before it restores
+  C14.storeCalls == ["mark-final", "mark-tmp", "remove-final", "store", "rename-tmp-final"] &&
   C14.retrieveCalls == ["exists-entry", "mark-entry", "restore", "restore"] &&
   C14.markedAdds == "recorded-size" && C14.unmarkedAdds == "walked-size" && C14.plainWalkSkipsEntryDirs &&
   C14.highTest == "return-if-total-<-high" && C14.lowTest == "<" &&
@@ -289,20 +292,61 @@ theorem C14_compressed_tmp_recognised (b : Bytes) (hl : b.length = 28) (hp : b[2
   rw [hs, hshape]
   rfl
 
-/-- The temporary of a store in flight is a plain-mode candidate too, but there it is marked. -/
+/-- The names `Store` protects before it touches anything, read off the regenerated list of what it marks. -/
+def storeProtected (b sfx : Bytes) : List Bytes :=
+  (if C14.storeMarks.contains "final" then markKeys (entryName b sfx) else []) ++
+  (if C14.storeMarks.contains "tmp" then markKeys (tmpName b C14.tmpSuffixBytes sfx) else [])
+
+/-- FULL, both modes, any key and suffix: the temporary of a store in flight is protected. -/
+theorem C14_store_tmp_protected (b sfx : Bytes) : tmpName b C14.tmpSuffixBytes sfx ∈ storeProtected b sfx := by
+  have h := C14_facts_ok
+  simp only [FactsOK, Bool.and_eq_true, beq_iff_eq] at h
+  have hm : C14.storeMarks = ["final", "tmp"] := h.1.1.1.1.1.1.1.1.1.2
+  simp [storeProtected, hm, markKeys]
+
+/-- FULL: whatever the order, an entry that is marked when the cleaner walks — in particular the temporary of a store in
+    flight, which `Store` marked first — is not a candidate, so it is neither evicted nor half-removed. -/
+theorem C14_marked_at_walk_never_evicted (marks marks' : Marks) (rn rm : Bytes → Bool) (high low : Nat)
+    (found order : List Entry) (hperm : order.Perm (scan marks found).1) (e : Entry) (hm : marks e.path ≠ none) :
+    e ∉ (clean marks marks' rn rm high low found order).evicted ∧
+    e ∉ (clean marks marks' rn rm high low found order).half := by
+  have hnot : e ∉ order := by
+    intro he
+    exact hm ((scan_spec marks found).2.1 e (hperm.subset he))
+  unfold clean
+  by_cases hh : (scan marks found).2 < high
+  · simp [hh]
+  · simp only [hh, if_false]
+    have hp := evict_perm marks' rn rm low order (scan marks found).2
+    constructor
+    · intro he
+      exact hnot (hp.subset (List.mem_append_left _ (List.mem_append_left _ he)))
+    · intro he
+      exact hnot (hp.subset (List.mem_append_right _ he))
+
+theorem C14_inflight_tmp_never_evicted (b sfx : Bytes) (marks marks' : Marks) (rn rm : Bytes → Bool) (high low : Nat)
+    (found order : List Entry) (hperm : order.Perm (scan marks found).1)
+    (hstore : ∀ k ∈ storeProtected b sfx, marks k ≠ none) (sz : Nat) (atm : Int) :
+    (⟨tmpName b C14.tmpSuffixBytes sfx, sz, atm⟩ : Entry) ∉ (clean marks marks' rn rm high low found order).evicted :=
+  (C14_marked_at_walk_never_evicted marks marks' rn rm high low found order hperm _
+    (hstore _ (C14_store_tmp_protected b sfx))).1
+
 def b64Key : Bytes := [77, 84, 73, 122, 78, 68, 85, 50, 78, 122, 103, 53, 77, 68, 69, 121, 77, 122, 81, 49, 78, 106, 99, 52, 79, 84, 65, 61]
 
-/-- NEVER-REMOVE-AN-ENTRY-OF-THIS-PROCESS FAILS for compressed caches: the process is storing key
-    `12345678901234567890` (the entry names are marked, as `Store` does first), its tarball `<key>=.tar.gz` is on disk,
-    and one pass of this process's own cleaner with the cache over its high-water mark evicts that tarball. -/
-theorem C14_witness_inflight_compressed :
+/-- THE OLD DEFECT, conditional on the old fact value (Store marking only the entry): the process is storing key
+    `12345678901234567890`, its tarball `<key>=.tar.gz` is on disk, and one pass of this process's own cleaner with the
+    cache over its high-water mark evicts that tarball. -/
+theorem C14_witness_inflight_compressed (hold : C14.storeMarks = ["final"]) :
     ∃ (marks : Marks) (found : List Entry) (high low : Nat),
-      (∀ k ∈ markKeys (entryName b64Key C14.compressedSuffixBytes), marks k = some 0) ∧
+      (∀ k ∈ storeProtected b64Key C14.compressedSuffixBytes, marks k = some 0) ∧
       (∀ e ∈ found, recognised true false e.path = true) ∧
       (clean marks marks (fun _ => true) (fun _ => true) high low found found).evicted =
-        [⟨tmpName b64Key C14.tmpSuffixBytes C14.compressedSuffixBytes, 50, 0⟩] :=
-  ⟨fun p => if p ∈ markKeys (entryName b64Key C14.compressedSuffixBytes) then some 0 else none,
-   [⟨tmpName b64Key C14.tmpSuffixBytes C14.compressedSuffixBytes, 50, 0⟩], 10, 5,
-   by decide, by decide, by decide⟩
+        [⟨tmpName b64Key C14.tmpSuffixBytes C14.compressedSuffixBytes, 50, 0⟩] := by
+  refine ⟨fun p => if p ∈ markKeys (entryName b64Key C14.compressedSuffixBytes) then some 0 else none,
+   [⟨tmpName b64Key C14.tmpSuffixBytes C14.compressedSuffixBytes, 50, 0⟩], 10, 5, ?_, by decide, by decide⟩
+  intro k hk
+  simp only [storeProtected, hold] at hk
+  have hk' : k ∈ markKeys (entryName b64Key C14.compressedSuffixBytes) := by simpa using hk
+  simp [hk']
 
 end PlzVerif.Props.C14
